@@ -46,6 +46,7 @@ static void observe(qhashtbl_t *t, const model_t *m, const char *after) {
     for (int i = 0; i < U; i++) { errno = 0; if (t->put(t, KEYS[i], NULL, 3) || errno != EINVAL) vc_viol("map:einval", "after %s: put('%s', NULL data) not refused with EINVAL", after, KEYS[i]); errno = 0; if (t->putstr(t, KEYS[i], NULL) || errno != EINVAL) vc_viol("map:einval", "after %s: putstr('%s', NULL) not refused with EINVAL", after, KEYS[i]); }
     errno = 0; if (t->put(t, NULL, "x", 1) || errno != EINVAL) vc_viol("map:einval", "put(NULL name) not refused with EINVAL");
     errno = 0; if (t->remove(t, NULL) || errno != EINVAL) vc_viol("map:einval", "remove(NULL) not refused with EINVAL");
+    for (int i = 0; i < U; i++) { void *d = t->get(t, KEYS[i], NULL, false); if ((d != NULL) != (m->present[i] != 0)) vc_viol("map:null-size-pointer", "after %s: get('%s') without a size pointer disagrees with the map", after, KEYS[i]); }
     if ((int)t->size(t) != m_count(m)) vc_viol("map:size", "after %s: size() = %zu, %d distinct keys stored", after, t->size(t), m_count(m));
     for (int i = 0; i < U; i++) {
         size_t kn = strlen(KEYS[i]) + 1;
